@@ -90,6 +90,10 @@ class SortableDict(col.MutableMapping):
 
             if index is not None:
                 # We are re-locating.
+                if (pos_key is not None) and (self.index(key) < index):
+                    # Removing key shifts pos_key (and everything after key)
+                    # down by one position.
+                    index -= 1
                 del self[key]
             else:
                 # We are updating
